@@ -9,11 +9,11 @@ SmallConts == { C(1, 0, 0, "none", FALSE, 0), C(2, 0, 0, "mh", FALSE, 0), C(2, 1
 
 StdRoots == { <<>>, <<"b1">>, <<"b3", "b4">>, <<"b1", "b1">> }
 (* valid blocks only: verifying readers hash them *)
-IdsA == {"b1", "b2", "b3", "b4", "b5", "b6", "b9", "b10"}          \* collisions: same mh / same digest / v0 / identity
-IdsB == {"b1", "b8", "b12", "b13", "b14", "b19"}                   \* widths, empty data, varint boundaries, long CID
+IdsA == {"b1", "b2", "b3", "b4", "b5", "b6", "b10", "b20"}          \* collisions: same mh / same digest / v0 / identity
+IdsB == {"b1", "b8", "b9", "b12", "b13", "b14", "b19"}                   \* widths, empty data, varint boundaries, long CID
 IdsBig == {"b1", "b15", "b16"}
 IdsT == {"b1", "b3", "b5", "b9", "b10", "b12"}
 TruncConts == { C(1, 0, 0, "none", FALSE, 0), C(2, 0, 0, "mh", FALSE, 0), C(2, 59, 0, "none", FALSE, 0) }
 TruncRoots == { <<>>, <<"b1">>, <<"b3", "b4">> }
-ProbesStd == {"b1", "b2", "b3", "b4", "b5", "b6", "b7", "b8", "b9", "b10", "b12", "b17", "b19"}
+ProbesStd == {"b1", "b2", "b3", "b4", "b5", "b6", "b7", "b8", "b9", "b10", "b12", "b17", "b19", "b20"}
 =============================================================================
